@@ -63,6 +63,12 @@ SNIPPETS = [
     ("def f(xs, k):\n    try:\n        a, b = k\n    except TypeError:\n        a = b = k\n    return a, b", None),
     ("def f(xs, k):\n    d = {}\n    d[(1, 2)] = 3\n    try:\n        return d[(2, 1)]\n    except KeyError:\n        return d[(1, 2)]", None),
     ("def f(xs, k):\n    try:\n        try:\n            raise ValueError('x')\n        finally:\n            k = k + 1\n    except ValueError:\n        return k", None),
+    # constructs added to the executor later (f-strings as data, slice assignment, one-key unpack, symbolic-index stores, Optional in tuples)
+    ("def f(xs, k):\n    labels = [f'g{i}' for i in range(k)] + [f'{k:03d}|{len(xs)!r}']\n    return labels, [l[0] == 'g' for l in labels]", None),
+    ("def f(xs, k):\n    l = list(xs) + ['a', 'b']\n    l[0:k] = 'o'\n    m = list(xs)\n    m[1:1] = [9, 9]\n    return l, m", None),
+    ("def f(xs, k):\n    d = {x: 1 for x in xs}\n    try:\n        (only,) = d\n        return only\n    except ValueError:\n        return 'not one'", None),
+    ("def f(xs, k):\n    l = [None] * 3\n    if xs:\n        l[min(k, 2)] = xs[0]\n        l[-1] = k\n    return l", None),
+    ("def f(xs, k):\n    memo = {}\n    out = []\n    for x in xs:\n        try:\n            v = memo[x]\n        except KeyError:\n            v = memo[x] = (x, None if x % 2 else x // 2)\n        out.append(v[1] is None)\n    return out, sorted(memo)", None),
 ]
 
 INPUTS = [((), 0), ((3,), 0), ((1, 2, 3), 1), ((4, 4, 2, 7), 2), ((-1, 5, 0, 2, 60, 3), 3), ((2, 2, 2), 2)]
